@@ -2,7 +2,8 @@
 use std::borrow::Cow;
 
 use vcoll::vvec::VVec as Vec;
-use vcoll::HashSet;
+#[allow(unused_imports)]
+use vcoll::{BTreeMap, BTreeSet, HashMap, HashSet};
 
 use crate::env::*;
 // ---- end of prelude ---------------------------------------------------------------------------
